@@ -244,6 +244,145 @@ theorem runCtx_pure {C K V : Type} (g : C → K → PyM V) (hash : K → Nat) (e
     rw [this]
     simpa [runCtx, MState.run] using ih (MState.step ⟨g c0, hash, eq⟩ st c.2)
 
+/-! ### context-reading wrapped functions that are pure on the keys and contexts that occur -/
+
+section CtxOn
+variable {C K V : Type}
+
+theorem lookup_f_irrel (f f' : K → PyM V) (h : K → Nat) (e : K → K → Bool) (c : List (K × V)) (k : K) :
+    (⟨f, h, e⟩ : MemoSpec K V).lookup c k = (⟨f', h, e⟩ : MemoSpec K V).lookup c k := by
+  induction c with
+  | nil => rfl
+  | cons p c ih => obtain ⟨k', v⟩ := p; simp [MemoSpec.lookup, MemoSpec.hit, ih]
+
+theorem store_f_irrel (f f' : K → PyM V) (h : K → Nat) (e : K → K → Bool) (c : List (K × V)) (k : K) (v : V) :
+    (⟨f, h, e⟩ : MemoSpec K V).store c k v = (⟨f', h, e⟩ : MemoSpec K V).store c k v := by
+  induction c with
+  | nil => rfl
+  | cons p c ih => obtain ⟨k', v'⟩ := p; simp [MemoSpec.store, MemoSpec.hit, ih]
+
+/-- one step only looks at the wrapped function at the key the stepping thread is about to compute -/
+theorem step_f_irrel (f f' : K → PyM V) (h : K → Nat) (e : K → K → Bool) (st : MState K V) (c : Tid × MAct K)
+    (hf : ∀ k, st.pc.get c.1 .idle = .missed k → f k = f' k) :
+    MState.step ⟨f, h, e⟩ st c = MState.step ⟨f', h, e⟩ st c := by
+  obtain ⟨t, a⟩ := c
+  cases hpc : st.pc.get t .idle with
+  | idle =>
+    cases a with
+    | call k => simp [MState.step, hpc, lookup_f_irrel f f' h e]
+    | compute => simp [MState.step, hpc]
+    | store => simp [MState.step, hpc]
+  | missed k =>
+    have := hf k hpc
+    cases a with
+    | call k' => simp [MState.step, hpc]
+    | compute => simp [MState.step, hpc, this]
+    | store => simp [MState.step, hpc]
+  | computed k v =>
+    cases a with
+    | call k' => simp [MState.step, hpc]
+    | compute => simp [MState.step, hpc]
+    | store => simp [MState.step, hpc, store_f_irrel f f' h e]
+
+/-- every key a thread is about to compute satisfies `P` -/
+def PendingIn (P : K → Prop) (st : MState K V) : Prop := ∀ t k, st.pc.get t .idle = .missed k → P k
+
+theorem pendingIn_step (s : MemoSpec K V) (P : K → Prop) {st : MState K V} (hp : PendingIn P st)
+    (c : Tid × MAct K) (hc : ∀ k, c.2 = .call k → P k) : PendingIn P (MState.step s st c) := by
+  obtain ⟨t, a⟩ := c
+  intro t' k' h'
+  cases hpc : st.pc.get t .idle with
+  | idle =>
+    cases a with
+    | call k =>
+      cases hl : s.lookup st.cache k with
+      | some v =>
+        have h1 : MState.step s st (t, .call k) = { st with log := (t, k, .ok v) :: st.log } := by
+          simp [MState.step, hpc, hl]
+        rw [h1] at h'; exact hp t' k' h'
+      | none =>
+        have h1 : MState.step s st (t, .call k) = { st with pc := st.pc.set t (.missed k) } := by
+          simp [MState.step, hpc, hl]
+        rw [h1] at h'
+        simp only [TMap.get_set] at h'
+        by_cases ht : t = t'
+        · simp [ht] at h'; subst h'; exact hc k rfl
+        · simp [ht] at h'; exact hp t' k' h'
+    | compute =>
+      have h1 : MState.step s st (t, .compute) = st := by simp [MState.step, hpc]
+      rw [h1] at h'; exact hp t' k' h'
+    | store =>
+      have h1 : MState.step s st (t, .store) = st := by simp [MState.step, hpc]
+      rw [h1] at h'; exact hp t' k' h'
+  | missed k =>
+    cases a with
+    | call k2 =>
+      have h1 : MState.step s st (t, .call k2) = st := by simp [MState.step, hpc]
+      rw [h1] at h'; exact hp t' k' h'
+    | store =>
+      have h1 : MState.step s st (t, .store) = st := by simp [MState.step, hpc]
+      rw [h1] at h'; exact hp t' k' h'
+    | compute =>
+      cases hf : s.f k with
+      | ok v =>
+        have h1 : MState.step s st (t, .compute) = { st with pc := st.pc.set t (.computed k v) } := by
+          simp [MState.step, hpc, hf]
+        rw [h1] at h'
+        simp only [TMap.get_set] at h'
+        by_cases ht : t = t'
+        · simp [ht] at h'
+        · simp [ht] at h'; exact hp t' k' h'
+      | error e =>
+        have h1 : MState.step s st (t, .compute) =
+            { st with pc := st.pc.set t .idle, log := (t, k, .error e) :: st.log } := by
+          simp [MState.step, hpc, hf]
+        rw [h1] at h'
+        simp only [TMap.get_set] at h'
+        by_cases ht : t = t'
+        · simp [ht] at h'
+        · simp [ht] at h'; exact hp t' k' h'
+  | computed k v =>
+    cases a with
+    | call k2 =>
+      have h1 : MState.step s st (t, .call k2) = st := by simp [MState.step, hpc]
+      rw [h1] at h'; exact hp t' k' h'
+    | compute =>
+      have h1 : MState.step s st (t, .compute) = st := by simp [MState.step, hpc]
+      rw [h1] at h'; exact hp t' k' h'
+    | store =>
+      have h1 : MState.step s st (t, .store) =
+          { cache := s.store st.cache k v, pc := st.pc.set t .idle, log := (t, k, .ok v) :: st.log } := by
+        simp [MState.step, hpc]
+      rw [h1] at h'
+      simp only [TMap.get_set] at h'
+      by_cases ht : t = t'
+      · simp [ht] at h'
+      · simp [ht] at h'; exact hp t' k' h'
+
+/-- If the context-reading function agrees with its context-free version on every key that is called (`P`) in
+every context that occurs in the schedule, the run is the run of the context-free function. -/
+theorem runCtx_pure_on (g : C → K → PyM V) (hash : K → Nat) (eq : K → K → Bool) (c0 : C) (P : K → Prop)
+    (cs : List (C × Tid × MAct K))
+    (hcall : ∀ e, e ∈ cs → ∀ k, e.2.2 = .call k → P k)
+    (hpure : ∀ e, e ∈ cs → ∀ k, P k → g e.1 k = g c0 k)
+    (st : MState K V) (hp : PendingIn P st) :
+    runCtx g hash eq st cs = MState.run ⟨g c0, hash, eq⟩ st (cs.map (·.2)) := by
+  induction cs generalizing st with
+  | nil => rfl
+  | cons c cs ih =>
+    simp only [runCtx, List.foldl_cons, MState.run, List.map_cons]
+    have h1 : stepCtx g hash eq st c = MState.step ⟨g c0, hash, eq⟩ st c.2 := by
+      unfold stepCtx
+      exact step_f_irrel (g c.1) (g c0) hash eq st c.2
+        (fun k hk => hpure c (by simp) k (hp c.2.1 k hk))
+    rw [h1]
+    have := ih (fun e he => hcall e (by simp [he])) (fun e he => hpure e (by simp [he]))
+      (MState.step ⟨g c0, hash, eq⟩ st c.2)
+      (pendingIn_step _ P hp c.2 (hcall c (by simp)))
+    simpa [runCtx, MState.run] using this
+
+end CtxOn
+
 /-! ### (b) recursion guard -/
 
 section Guard
